@@ -57,7 +57,7 @@ func (r *Runner) BeginTxn(ctx context.Context, label string, p *Program, spec Tx
 		if err != nil && errors.Is(err, decor.ErrInjected) {
 			r.Rec.Add(Ev{Ev: "OpError", T: label, S: o.Name, Op: "NewStore", Note: errs(err)})
 		} else {
-			r.Rec.Add(Ev{Ev: "NewStore", T: label, S: o.Name, Unique: o.Unique, Ok: err == nil, Note: errs(err)})
+			r.Rec.Add(Ev{Ev: "NewStore", T: label, S: o.Name, Unique: o.Unique, Ok: err == nil, Note: errs(err), Opts: optsOf(b, err)})
 		}
 		if err != nil {
 			lt.Dead = true
@@ -71,7 +71,7 @@ func (r *Runner) BeginTxn(ctx context.Context, label string, p *Program, spec Tx
 		if err != nil && errors.Is(err, decor.ErrInjected) {
 			r.Rec.Add(Ev{Ev: "OpError", T: label, S: o.Name, Op: "OpenStore", Note: errs(err)})
 		} else {
-			r.Rec.Add(Ev{Ev: "OpenStore", T: label, S: o.Name, Ok: err == nil, Note: errs(err)})
+			r.Rec.Add(Ev{Ev: "OpenStore", T: label, S: o.Name, Ok: err == nil, Note: errs(err), Opts: optsOf(b, err)})
 		}
 		if err != nil {
 			lt.Dead = true
@@ -201,7 +201,7 @@ func (r *Runner) Observe(ctx context.Context, p *Program) error {
 			r.Rec.Add(Ev{Ev: "ObserveError", S: o.Name, Note: errs(err)})
 			continue
 		}
-		e := Ev{Ev: "Observe", S: o.Name, Exists: exists, Count: int(cnt)}
+		e := Ev{Ev: "Observe", S: o.Name, Exists: exists, Count: int(cnt), Opts: r.Env.StoreDigest(ctx, o.Name)}
 		for _, kv := range items {
 			e.Items = append(e.Items, KV{K: kv.K, V: vname(kv.V)})
 		}
@@ -231,4 +231,13 @@ func (r *Runner) RunTxn(ctx context.Context, label string, p *Program, spec TxnS
 		defer r.Env.Hub.ClearFaults()
 	}
 	return r.End(ctx, lt), nil
+}
+
+// optsOf is the configuration digest of an opened B-tree ("" on error).
+func optsOf(b btree.BtreeInterface[int, string], err error) string {
+	if err != nil || b == nil {
+		return ""
+	}
+	si := b.GetStoreInfo()
+	return sopenv.Digest(&si)
 }
